@@ -161,6 +161,7 @@ type Solver struct {
 	stats   *SolverStats
 	cache   map[string]cachedResult
 	prefer  string // "", "z3-new", "cvc5", "z3"
+	obligation bool // the query being decided is an assertion obligation (set by doAssert)
 	diffAll bool   // decide every query on two solvers and compare
 	log     io.Writer
 	nq      int
@@ -459,10 +460,12 @@ func (s *Solver) Check(asserts []*Term, wantModel bool) (SatResult, Model) {
 	r, m, _ := s.runOn(first, script, vars, true)
 	if r == Unknown {
 		r, m, _ = s.runOn(second, script, vars, true)
-	} else if s.diffAll && r == Unsat {
-		// Thorough tier: every "unsat" (an assertion that holds, a branch that is
-		// pruned) is re-decided by the second solver. A "sat" answer carries a model
-		// that is validated by evaluation below, so it needs no second opinion.
+	} else if s.diffAll && s.obligation && r == Unsat {
+		// Thorough tier: every discharged obligation (an assertion that was found to
+		// hold) is re-decided by the second solver. Branch-feasibility queries are not:
+		// re-deciding those as well made cvc5 the bottleneck by two orders of magnitude
+		// on the UF-heavy container lemmas. A "sat" answer carries a model that is
+		// validated by evaluation below, so it needs no second opinion.
 		r2, _, _ := s.runOn(second+"#diff", script, vars, false)
 		if r2 != Unknown && r2 != r {
 			if s.log != nil {
